@@ -1,0 +1,14 @@
+//go:build verif
+
+package daemon
+
+// VerifYield, when set (verification builds only), is called at named points of BackgroundWorker and Start
+// ("BackgroundWorker.afterStoppedCheck", "Start.afterStoppedCheck", "Start.locked") so that a test harness can
+// hold a caller inside a race window. It must only be set while no daemon is in use.
+var VerifYield func(point string)
+
+func verifYield(point string) {
+	if f := VerifYield; f != nil {
+		f(point)
+	}
+}
